@@ -125,6 +125,14 @@ enum ViotEntryType {
 /// A handle returned for a translation-type device (IOMMU)
 pub struct TranslationHandle(u16);
 
+#[cfg(rust_vmm_acpi_tables_verif)]
+impl TranslationHandle {
+    /// Verification hook: raw table offset carried by this handle.
+    pub fn verif_raw(&self) -> u16 {
+        self.0
+    }
+}
+
 pub struct PciDevice {
     segment: u16,
     bus: u8,
